@@ -415,6 +415,7 @@ func runCheck(o *checkOpts) int {
 	var lines []string
 	violations, knownHits, spurious := 0, map[string]int{}, 0
 	validated, validateMismatch := 0, 0
+	probes, probeHits := 0, 0
 	var violSamples []map[string]interface{}
 	if !o.noReplay {
 		bin, err := buildReplayBinary(o.pkg)
@@ -495,6 +496,13 @@ func runCheck(o *checkOpts) int {
 		reported := map[string]bool{}
 		for _, v := range cands {
 			r := nat[v.ID]
+			if v.Predicted != nil && v.Predicted.Outcome == "probe" {
+				probes++
+				if r == nil || r.Outcome == "ok" || r.Outcome == "assume" || r.Outcome == "vector" {
+					continue // a clean native run of an inconclusive path's prefix says nothing
+				}
+				probeHits++
+			}
 			if r == nil || r.Outcome == "ok" || r.Outcome == "assume" || r.Outcome == "vector" {
 				spurious++
 				oc := "none"
@@ -630,42 +638,44 @@ func runCheck(o *checkOpts) int {
 		"wall_s":      time.Since(t0).Seconds(),
 		"violations":  violations,
 		"coverage": map[string]interface{}{
-			"states":                        st.paths,
-			"transitions":                   transitions,
-			"traces_validated_against_impl": validated,
-			"samples":                       samples,
-			"exhaustive":                    exhaustive,
-			"obligations":                   st.obligations,
-			"discharged":                    st.discharged,
-			"explanation":                   "bounded symbolic execution of the Go SSA of /repo (regenerated from the working tree on this run); states = complete feasible paths decided; transitions = forks on symbolic conditions; every assertion and every implicit run-time check on every path is an SMT query (or an exact 256-value evaluation for single-byte conditions)",
-			"harnesses":                     names,
-			"paths_per_harness":             st.perHarness,
-			"functions_encoded":             funcs,
-			"functions_encoded_count":       len(funcs),
-			"ssa_instructions_executed":     st.instrs,
-			"solver":                        o.solver,
-			"solver_queries":                map[string]int64{"sat": res.sat, "unsat": res.unsat, "unknown": res.unknown, "byte_fastpath_decisions": st.fast},
-			"solver_time_s":                 res.solverTime.Seconds(),
-			"cross_solver":                  crossStats,
-			"cross_solver_disagreements":    crossBad,
-			"load_and_ssa_build_s":          loadDur.Seconds(),
-			"infeasible_paths_pruned":       st.infeasible,
-			"inconclusive_paths":            inconTotal,
-			"inconclusive_reasons":          incon,
-			"unwind_failures":               st.unwind,
-			"assertions_with_unknown":       st.assertUnknown,
-			"unexplored_prefixes":           res.unexplored,
-			"paths_cut_by_deadline":         st.deadline,
-			"violation_candidates":          candCount,
-			"spurious_counterexamples":      spurious,
-			"known_findings_hit":            knownHits,
-			"path_validation_mismatches":    validateMismatch,
-			"covers":                        st.covers,
-			"workers":                       res.workers,
-			"fuel_per_path":                 o.fuel,
-			"repo_head":                     repoHead(),
-			"vacuous_harnesses":             vacuous,
-			"undecided_harnesses":           undecided,
+			"states":                             st.paths,
+			"transitions":                        transitions,
+			"traces_validated_against_impl":      validated,
+			"samples":                            samples,
+			"exhaustive":                         exhaustive,
+			"obligations":                        st.obligations,
+			"discharged":                         st.discharged,
+			"explanation":                        "bounded symbolic execution of the Go SSA of /repo (regenerated from the working tree on this run); states = complete feasible paths decided; transitions = forks on symbolic conditions; every assertion and every implicit run-time check on every path is an SMT query (or an exact 256-value evaluation for single-byte conditions)",
+			"harnesses":                          names,
+			"paths_per_harness":                  st.perHarness,
+			"functions_encoded":                  funcs,
+			"functions_encoded_count":            len(funcs),
+			"ssa_instructions_executed":          st.instrs,
+			"solver":                             o.solver,
+			"solver_queries":                     map[string]int64{"sat": res.sat, "unsat": res.unsat, "unknown": res.unknown, "byte_fastpath_decisions": st.fast},
+			"solver_time_s":                      res.solverTime.Seconds(),
+			"cross_solver":                       crossStats,
+			"cross_solver_disagreements":         crossBad,
+			"load_and_ssa_build_s":               loadDur.Seconds(),
+			"infeasible_paths_pruned":            st.infeasible,
+			"inconclusive_paths":                 inconTotal,
+			"inconclusive_reasons":               incon,
+			"unwind_failures":                    st.unwind,
+			"assertions_with_unknown":            st.assertUnknown,
+			"unexplored_prefixes":                res.unexplored,
+			"paths_cut_by_deadline":              st.deadline,
+			"violation_candidates":               candCount,
+			"spurious_counterexamples":           spurious,
+			"inconclusive_paths_probed_natively": probes,
+			"inconclusive_path_probes_failing":   probeHits,
+			"known_findings_hit":                 knownHits,
+			"path_validation_mismatches":         validateMismatch,
+			"covers":                             st.covers,
+			"workers":                            res.workers,
+			"fuel_per_path":                      o.fuel,
+			"repo_head":                          repoHead(),
+			"vacuous_harnesses":                  vacuous,
+			"undecided_harnesses":                undecided,
 		},
 		"assumptions": []string{
 			"go/packages + go/ssa (x/tools v0.29.0) construct the SSA of /repo correctly",
